@@ -405,11 +405,24 @@ class Runner:
         pe = run_stack([self.model, "encode", self.p("e.list")])
         for l in pe.stdout.split("\n"):
             if " wf_table=" in l:
-                self.stats["tables_checked_against_theorem_hypotheses"] = self.stats.get("tables_checked_against_theorem_hypotheses", 0) + 1
-                if "wf_table=1 wf_doc=1" in l:
-                    self.stats["tables_satisfying_theorem_hypotheses"] = self.stats.get("tables_satisfying_theorem_hypotheses", 0) + 1
+                # the extracted hypothesis of C06_roundtrip (wf_table'), and the instance of C06_wf_doc on this table
+                f = dict(kv.split("=") for kv in l.split()[1:] if "=" in kv)
+                st = self.stats
+                st["theorem_hypothesis"] = "wf_table' (extracted FitsWf.wf_table', the hypothesis of C06_roundtrip)"
+                st["tables_checked_against_theorem_hypotheses"] = st.get("tables_checked_against_theorem_hypotheses", 0) + 1
+                if f.get("wf_table'") == "1":
+                    st["tables_satisfying_theorem_hypotheses"] = st.get("tables_satisfying_theorem_hypotheses", 0) + 1
+                    if f.get("wf_doc") != "1" or f.get("wf_table") != "1":
+                        # contradicts the proved theorems C06_wf_doc / wf_table'_wf_table: extraction, driver or build inconsistency
+                        cid0 = l.split()[0]
+                        c0 = dict(cases).get(cid0)
+                        if c0 is not None:
+                            fail(cid0, c0, "model:wf_table'-without-wf_doc", "extracted wf_table' holds but wf_table / wf_doc (to_doc t) does not (%s): contradicts C06_wf_doc" % l[:80],
+                                 {"broken": "C06_wf_doc"})
                 else:
-                    self.stats.setdefault("tables_outside_theorem_hypotheses", []).append(l[:80])
+                    st.setdefault("tables_outside_wf_table_prime", []).append(l[:80])
+                    if f.get("wf_table") == "1" and f.get("wf_doc") == "1":
+                        st["tables_wf_doc_but_not_wf_table_prime"] = st.get("tables_wf_doc_but_not_wf_table_prime", 0) + 1
         if pd.returncode != 0 or pe.returncode != 0:
             raise BuildError("model driver failed: %s %s" % (pd.stderr[-500:], pe.stderr[-500:]))
         open(self.p("r.list"), "w").write("\n".join(R) + "\n")
